@@ -221,7 +221,7 @@ pub fn run(report: &Report) -> i32 {
         "c05",
         "proptest-generated transfers with limits around 0/1/varint boundaries and run-time window changes, credit frames dropped/duplicated/reordered by the link; oracle: observer-side credit ledger per sender (stream, connection, stream-count limits; RESET_STREAM final sizes; send_window bound); non-trivial = a write/open was limited by credit AND a datagram carrying MAX_DATA/MAX_STREAM_DATA/MAX_STREAMS was faulted",
         || arb_xfer(gen()),
-        report.cases(8000, 400_000),
+        report.cases(24_000, 800_000),
         case,
     );
     report.finish("generated-input search (proptest) against an independent credit ledger")
